@@ -29,6 +29,8 @@ def fresh_state_names(rng, n, special_p=0.08, style=None, setlike_p=0.04):
                 nm = str(rng.randrange(0, max(50, 4 * n)))
             else:
                 nm = ''.join(rng.choice(_ALNUM) for _ in range(rng.randrange(1, 5)))
+                if rng.random() < 0.03:
+                    nm = nm[:2] + rng.choice(['%', '%s', '-', '.', '#', '$', '\\', "'"]) + nm[2:]    # legal for objects built through the constructors
             if nm not in used:
                 break
             if style in ('q', 's'):
